@@ -40,6 +40,19 @@ type c04eG struct {
 	nMsg     int
 	observer *ecdsa.PrivateKey
 	variant  string
+	nSig     map[string]int
+}
+
+// c04eMaxPerSig: main.go keeps only the first 200 reports of a run; a handful per signature keeps room for every class.
+const c04eMaxPerSig = 4
+
+func (g *c04eG) fail(sig, detail string, replay interface{}) {
+	g.nSig[sig]++
+	if g.nSig[sig] > c04eMaxPerSig {
+		g.c.Count("e:more-reports-suppressed:" + sig)
+		return
+	}
+	g.c.Fail(sig, detail, replay)
 }
 
 func (g *c04eG) txID(tx *types.Transaction) int {
@@ -202,6 +215,9 @@ func (e *c04eEnv) declare(b *types.Block) int {
 
 // insert: validator path on the mirrored node. Returns accept / reject / panic.
 func (e *c04eEnv) insert(b *types.Block) string {
+	if _, dup := e.ids[b.Hash()]; dup {
+		panic("harness: the same block is offered twice (it would be ignored, not verified)")
+	}
 	id := e.declare(b)
 	deputynode.SetSelfNodeKey(e.g.observer)
 	before := e.n.BC.StableBlock().Hash()
@@ -213,7 +229,7 @@ func (e *c04eEnv) insert(b *types.Block) string {
 	})
 	e.g.c.Op(fmt.Sprintf("verify %d", id), res)
 	if res == "panic" {
-		e.g.c.Fail("c04/engine-panic/insert-block", fmt.Sprintf("[%s] InsertBlock panics: %s", e.name, msg), map[string]interface{}{"seed": e.g.c.Seed, "block": id, "time": b.Time()})
+		e.g.fail("c04/engine-panic/insert-block", fmt.Sprintf("[%s] InsertBlock panics: %s", e.name, msg), map[string]interface{}{"seed": e.g.c.Seed, "block": id, "time": b.Time()})
 		return res
 	}
 	if res == "accept" {
@@ -310,7 +326,7 @@ func (e *c04eEnv) mustInsert(parent *types.Block, t uint32, txs ...*types.Transa
 		panic(fmt.Sprintf("[%s] setup block at %d: miner dropped %d of %d txs", e.name, t, len(txs)-len(b.Txs), len(txs)))
 	}
 	if r := e.insert(b); r != "accept" {
-		e.g.c.Fail("c04/honest-block-rejected", fmt.Sprintf("[%s] setup block height %d time %d with %d fresh txs: %s", e.name, b.Height(), t, len(txs), r), nil)
+		e.g.fail("c04/honest-block-rejected", fmt.Sprintf("[%s] setup block height %d time %d with %d fresh txs: %s", e.name, b.Height(), t, len(txs), r), nil)
 		panic(fmt.Sprintf("[%s] setup block rejected", e.name))
 	}
 	return b
@@ -426,7 +442,7 @@ func (e *c04eEnv) run(name string, f func()) (ok bool) {
 				return
 			}
 			e.g.c.Count("e:" + name + ":panic")
-			e.g.c.Fail("c04/engine-panic/"+name, fmt.Sprintf("[%s] scenario aborted: %v", e.name, r), e.witness(nil))
+			e.g.fail("c04/engine-panic/"+name, fmt.Sprintf("[%s] scenario aborted: %v", e.name, r), e.witness(nil))
 			fmt.Fprintf(os.Stderr, "c04e: scenario %s aborted: %v\n", name, r)
 			ok = false
 		}
@@ -436,7 +452,7 @@ func (e *c04eEnv) run(name string, f func()) (ok bool) {
 }
 
 func c04Engine(c *Ctx) {
-	g := &c04eG{c: c, txIDs: map[common.Hash]int{}, ctIDs: map[common.Hash]int{}, observer: detKey("c04e-observer")}
+	g := &c04eG{c: c, txIDs: map[common.Hash]int{}, ctIDs: map[common.Hash]int{}, observer: detKey("c04e-observer"), nSig: map[string]int{}}
 	reps := c.N/10 + 1
 	if reps > 45 {
 		reps = 45
@@ -502,10 +518,24 @@ func c04Engine(c *Ctx) {
 		}
 	}()
 
+	// ---- family 4: random fork histories with replays, stable advances and restarts (one node)
+	func() {
+		w := NewWorld(3, now-20000000, 10000)
+		e := g.newEnv("random", w)
+		defer func() { e.n.Close() }()
+		if !e.run("setup", e.fund) {
+			return
+		}
+		e.run("random", func() { e.scRandom(reps * 100) })
+	}()
+
 	// ---- family 3: the real miner with a pool fed by a side-branch block (fresh node pair per repetition, real clock)
 	mreps := reps
-	if mreps > 8 {
-		mreps = 8
+	if mreps < 3 {
+		mreps = 3
+	}
+	if mreps > 9 {
+		mreps = 9
 	}
 	for r := 0; r < mreps; r++ {
 		c04eMiner(g, r)
@@ -626,7 +656,7 @@ func (e *c04eEnv) scReencodedAt(kind, place string) {
 	wantDebit := new(big.Int).Add(new(big.Int).Mul(p.amount, big.NewInt(k)), fees)
 	if k >= 2 {
 		c.Count("e:" + kind + ":" + place + ":replayed")
-		c.Fail(sig, fmt.Sprintf("tx T (hash %s) in block time %d and its re-encoding T' (hash %s, same signing hash %s, same signer) placed as %s at time %d (exp %d) are both accepted: recipient credited %d x %s, sender debited %s (= %d x amount + fees %s: %v)",
+		e.g.fail(sig, fmt.Sprintf("tx T (hash %s) in block time %d and its re-encoding T' (hash %s, same signing hash %s, same signer) placed as %s at time %d (exp %d) are both accepted: recipient credited %d x %s, sender debited %s (= %d x amount + fees %s: %v)",
 			p.tx.Hash().Hex()[:10], t1, p2.Hash().Hex()[:10], types.MakeSigner().Hash(p2).Hex()[:10], place, t2, exp, k, p.amount, debit, k, fees, debit.Cmp(wantDebit) == 0),
 			e.witness(map[string]interface{}{"kind": kind, "place": place, "t1": t1, "t2": t2, "exp": exp, "amount": p.amount.String(), "execs": k, "sigsT": len(p.tx.Sigs()), "sigsT2": len(p2.Sigs())}))
 	} else {
@@ -671,7 +701,7 @@ func (e *c04eEnv) scDupInBlock() {
 	debit := new(big.Int).Sub(senderBefore, e.bal(b, keyAddr(p.from)))
 	if k >= 2 {
 		c.Count("e:dup-in-block:replayed")
-		c.Fail("c04/replayed/duplicate-in-block", fmt.Sprintf("block height %d time %d names tx %s %d times; the miner path executes every copy and InsertBlock accepts the block: recipient credited %d x %s, sender debited %s",
+		e.g.fail("c04/replayed/duplicate-in-block", fmt.Sprintf("block height %d time %d names tx %s %d times; the miner path executes every copy and InsertBlock accepts the block: recipient credited %d x %s, sender debited %s",
 			b.Height(), t, p.tx.Hash().Hex()[:10], got, k, p.amount, debit),
 			e.witness(map[string]interface{}{"copies": got, "t": t, "exp": p.tx.Expiration(), "amount": p.amount.String(), "execs": k}))
 	} else {
@@ -720,7 +750,7 @@ func (e *c04eEnv) scBoxInBlock() {
 		k := e.execs(b, p.rcpt, p.amount)
 		if k >= 2 {
 			c.Count("e:box-in-block:" + shape + ":replayed")
-			c.Fail(sig, fmt.Sprintf("block height %d time %d carries tx %s %d times (%s); InsertBlock accepts: recipient credited %d x %s",
+			e.g.fail(sig, fmt.Sprintf("block height %d time %d carries tx %s %d times (%s); InsertBlock accepts: recipient credited %d x %s",
 				b.Height(), t, p.tx.Hash().Hex()[:10], got, shape, k, p.amount),
 				e.witness(map[string]interface{}{"shape": shape, "t": t, "exp": exp, "boxExp": boxExp, "amount": p.amount.String(), "execs": k}))
 		} else {
@@ -786,7 +816,7 @@ func (e *c04eEnv) scAcross() {
 		if verdict == "accept" {
 			k := e.execs(b2, p.rcpt, p.amount)
 			c.Count("e:across:" + kind + ":accepted")
-			c.Fail("c04/replayed/across-blocks/"+kind, fmt.Sprintf("tx %s first in block height %d time %d, again (%s) %d blocks later at time %d (exp %d): accepted, recipient credited %d x %s",
+			e.g.fail("c04/replayed/across-blocks/"+kind, fmt.Sprintf("tx %s first in block height %d time %d, again (%s) %d blocks later at time %d (exp %d): accepted, recipient credited %d x %s",
 				p.tx.Hash().Hex()[:10], b1.Height(), t1, kind, gaps+1, t2, exp, k, p.amount),
 				e.witness(map[string]interface{}{"kind": kind, "t1": t1, "t2": t2, "gaps": gaps, "exp": exp, "execs": k}))
 		} else {
@@ -833,13 +863,13 @@ func (e *c04eEnv) scWindow() {
 		if verdict == "accept" {
 			k := e.execs(b, p.rcpt, p.amount)
 			if !inWindow {
-				c.Fail("c04/executed-outside-window", fmt.Sprintf("tx with expiration %d is accepted in a block stamped %d (exp%+d): executed %d time(s)", exp, t, off, k),
+				e.g.fail("c04/executed-outside-window", fmt.Sprintf("tx with expiration %d is accepted in a block stamped %d (exp%+d): executed %d time(s)", exp, t, off, k),
 					e.witness(map[string]interface{}{"exp": exp, "blockTime": t, "off": off, "execs": k}))
 			} else if k != 1 {
 				c.Count(fmt.Sprintf("e:window:%s:execs-%d", cls, k))
 			}
 		} else if inWindow && verdict == "reject" {
-			c.Fail("c04/valid-tx-refused/window", fmt.Sprintf("tx with expiration %d is refused in a block stamped %d (exp%+d), inside its life time and on a branch that never had it", exp, t, off),
+			e.g.fail("c04/valid-tx-refused/window", fmt.Sprintf("tx with expiration %d is refused in a block stamped %d (exp%+d), inside its life time and on a branch that never had it", exp, t, off),
 				e.witness(map[string]interface{}{"exp": exp, "blockTime": t, "off": off}))
 		}
 	}
@@ -878,11 +908,11 @@ func (e *c04eEnv) scWindowBox() {
 		c.Count("e:window-box:" + k.name + ":" + verdict)
 		if verdict == "accept" && !k.ok {
 			n := e.execs(b, p.rcpt, p.amount)
-			c.Fail("c04/executed-outside-window", fmt.Sprintf("box (exp %d) with sub-tx (exp %d) accepted in a block stamped %d [%s]: sub-tx executed %d time(s)", k.boxExp, k.subExp, t, k.name, n),
+			e.g.fail("c04/executed-outside-window", fmt.Sprintf("box (exp %d) with sub-tx (exp %d) accepted in a block stamped %d [%s]: sub-tx executed %d time(s)", k.boxExp, k.subExp, t, k.name, n),
 				e.witness(map[string]interface{}{"case": k.name, "boxExp": k.boxExp, "subExp": k.subExp, "blockTime": t, "execs": n}))
 		}
 		if verdict == "reject" && k.ok {
-			c.Fail("c04/valid-tx-refused/window", fmt.Sprintf("box (exp %d) with sub-tx (exp %d) refused in a block stamped %d [%s]", k.boxExp, k.subExp, t, k.name),
+			e.g.fail("c04/valid-tx-refused/window", fmt.Sprintf("box (exp %d) with sub-tx (exp %d) refused in a block stamped %d [%s]", k.boxExp, k.subExp, t, k.name),
 				e.witness(map[string]interface{}{"case": k.name, "boxExp": k.boxExp, "subExp": k.subExp, "blockTime": t}))
 		}
 	}
@@ -917,7 +947,7 @@ func (e *c04eEnv) scForkShape(shape string) {
 	tag := "e:fork:" + shape
 	refused := func(b *types.Block, what string) {
 		c.Count(tag + ":refused")
-		c.Fail("c04/fork-tx-refused", fmt.Sprintf("%s: tx %s executed only on branch A (block time %d) is refused on branch B in block height %d time %d (boxed=%v)", shape, p.tx.Hash().Hex()[:10], tA1, b.Height(), b.Time(), boxed),
+		e.g.fail("c04/fork-tx-refused", fmt.Sprintf("%s: tx %s executed only on branch A (block time %d) is refused on branch B in block height %d time %d (boxed=%v)", shape, p.tx.Hash().Hex()[:10], tA1, b.Height(), b.Time(), boxed),
 			e.witness(map[string]interface{}{"shape": shape, "what": what, "tA1": tA1, "tB": b.Time(), "exp": exp, "boxed": boxed}))
 	}
 	var bHead *types.Block
@@ -958,7 +988,7 @@ func (e *c04eEnv) scForkShape(shape string) {
 	if k := e.execs(bHead, p.rcpt, p.amount); k != 1 {
 		c.Count(fmt.Sprintf("%s:execs-on-B-%d", tag, k))
 		if k > 1 {
-			c.Fail("c04/replayed/across-blocks/after-fork-switch", fmt.Sprintf("%s: recipient credited %d times on branch B", shape, k), e.witness(map[string]interface{}{"shape": shape}))
+			e.g.fail("c04/replayed/across-blocks/after-fork-switch", fmt.Sprintf("%s: recipient credited %d times on branch B", shape, k), e.witness(map[string]interface{}{"shape": shape}))
 		}
 	}
 	// replays on the winner (standalone, and boxed by somebody else) and on the loser: all must be refused
@@ -976,7 +1006,7 @@ func (e *c04eEnv) scForkShape(shape string) {
 		c.Count(tag + ":replay-on-winner-" + again.name + ":" + v)
 		if v == "accept" {
 			k := e.execs(r, p.rcpt, p.amount)
-			c.Fail("c04/replayed/across-blocks/after-fork-switch", fmt.Sprintf("%s: after the switch to branch B (tx at height <= %d) a child of the new head at time %d with the tx again (%s) is accepted: credited %d x %s", shape, bHead.Height(), tr, again.name, k, p.amount),
+			e.g.fail("c04/replayed/across-blocks/after-fork-switch", fmt.Sprintf("%s: after the switch to branch B (tx at height <= %d) a child of the new head at time %d with the tx again (%s) is accepted: credited %d x %s", shape, bHead.Height(), tr, again.name, k, p.amount),
 				e.witness(map[string]interface{}{"shape": shape, "again": again.name, "tA1": tA1, "tB1": tB1, "tr": tr, "exp": exp, "execs": k, "boxed": boxed}))
 			return
 		}
@@ -986,7 +1016,7 @@ func (e *c04eEnv) scForkShape(shape string) {
 	c.Count(tag + ":replay-on-loser:" + v)
 	if v == "accept" {
 		k := e.execs(ra, p.rcpt, p.amount)
-		c.Fail("c04/replayed/across-blocks/same-tx-child", fmt.Sprintf("%s: on the abandoned branch A the tx is accepted again in the child of A1: credited %d x %s", shape, k, p.amount),
+		e.g.fail("c04/replayed/across-blocks/same-tx-child", fmt.Sprintf("%s: on the abandoned branch A the tx is accepted again in the child of A1: credited %d x %s", shape, k, p.amount),
 			e.witness(map[string]interface{}{"shape": shape, "tA1": tA1, "exp": exp, "execs": k}))
 	}
 }
@@ -1041,7 +1071,7 @@ func (e *c04eEnv) scPrune() {
 		c.Count("e:prune:" + cls + ":" + v)
 		if v == "accept" {
 			k := e.execs(r, p.rcpt, p.amount)
-			c.Fail("c04/replayed/after-prune", fmt.Sprintf("tx (exp %d, boxed=%v) executed in block time %d; after the stable block advanced to time %d a block stamped %d with the tx again is accepted: credited %d x %s", exp, boxed, t1, e.n.BC.StableBlock().Time(), tr, k, p.amount),
+			e.g.fail("c04/replayed/after-prune", fmt.Sprintf("tx (exp %d, boxed=%v) executed in block time %d; after the stable block advanced to time %d a block stamped %d with the tx again is accepted: credited %d x %s", exp, boxed, t1, e.n.BC.StableBlock().Time(), tr, k, p.amount),
 				e.witness(map[string]interface{}{"t1": t1, "exp": exp, "stableTime": e.n.BC.StableBlock().Time(), "tr": tr, "execs": k, "boxed": boxed}))
 			return
 		}
@@ -1051,21 +1081,24 @@ func (e *c04eEnv) scPrune() {
 }
 
 func (e *c04eEnv) scPruneBoundary() {
+	rnd := e.g.c.Rnd
+	ks := []uint32{0, 1, 59, 60, 61, uint32(rnd.Intn(130)), uint32(rnd.Intn(58)) + 2}
+	e.scPruneBoundaryK(0, 59) // the tightest case: stable time = exp, the tx's block is the last second of its bucket
+	e.scPruneBoundaryK(0, 0)
+	e.scPruneBoundaryK(ks[rnd.Intn(len(ks))], rnd.Intn(3)*30-1)
+}
+
+// align: wanted t1 mod 60 (negative: leave t1 where it falls)
+func (e *c04eEnv) scPruneBoundaryK(k uint32, align int) {
 	c, rnd := e.g.c, e.g.c.Rnd
 	base := e.base()
-	// t1 at a chosen position inside its 60 s bucket
 	t1 := base.Time() + 1 + uint32(rnd.Intn(70))
-	switch rnd.Intn(3) {
-	case 0:
-		t1 = (t1/60 + 1) * 60
-	case 1:
-		t1 = (t1/60+1)*60 + 59
+	if align >= 0 {
+		t1 = (t1/60+1)*60 + uint32(align)
 	}
 	exp := uint64(t1 + c04eLife)
 	p := e.pay(exp)
 	p1 := e.mustInsert(base, t1, p.tx)
-	ks := []uint32{0, 0, 1, 59, 60, 61, uint32(rnd.Intn(130))}
-	k := ks[rnd.Intn(len(ks))]
 	via := rnd.Intn(3) // 0: S directly on P1; 1: an intermediate block; 2: P1 stable first
 	parent := p1
 	if via == 2 {
@@ -1096,7 +1129,7 @@ func (e *c04eEnv) scPruneBoundary() {
 	c.Count("e:prune-boundary:" + cls + ":" + v)
 	if v == "accept" {
 		n := e.execs(r, p.rcpt, p.amount)
-		c.Fail("c04/replayed/after-prune", fmt.Sprintf("boundary: tx exp %d = t1+1800 executed at t1=%d (t1 mod 60 = %d); stable block at t1+1800+%d; a block stamped %d with the tx again is accepted: credited %d x %s", exp, t1, t1%60, k, tr, n, p.amount),
+		e.g.fail("c04/replayed/after-prune", fmt.Sprintf("boundary: tx exp %d = t1+1800 executed at t1=%d (t1 mod 60 = %d); stable block at t1+1800+%d; a block stamped %d with the tx again is accepted: credited %d x %s", exp, t1, t1%60, k, tr, n, p.amount),
 			e.witness(map[string]interface{}{"t1": t1, "exp": exp, "k": k, "tr": tr, "via": via, "execs": n}))
 	}
 	e.stabilise(onTop)
@@ -1105,17 +1138,20 @@ func (e *c04eEnv) scPruneBoundary() {
 // ---- (i): restart ----------------------------------------------------------------------------------
 
 func (e *c04eEnv) scRestart() {
+	rnd := e.g.c.Rnd
+	e.scRestartDist(c04eLife)
+	dist := uint32(rnd.Intn(int(c04eLife) + 1))
+	if rnd.Intn(3) == 0 {
+		dist = c04eLife - uint32(rnd.Intn(61))
+	}
+	e.scRestartDist(dist)
+}
+
+// dist: distance between the tx's block and the stable block the node restarts on
+func (e *c04eEnv) scRestartDist(dist uint32) {
 	c, rnd := e.g.c, e.g.c.Rnd
 	base := e.base()
 	t1 := base.Time() + 1 + uint32(rnd.Intn(70))
-	// distance between the tx's block and the stable block the node restarts on
-	dist := uint32(rnd.Intn(int(c04eLife) + 1))
-	switch rnd.Intn(4) {
-	case 0:
-		dist = c04eLife
-	case 1:
-		dist = c04eLife - uint32(rnd.Intn(61))
-	}
 	exp := uint64(t1 + c04eLife - uint32(rnd.Intn(int(c04eLife-dist)+1))) // t1+dist <= exp <= t1+1800
 	p := e.pay(exp)
 	boxed := rnd.Intn(3) == 0
@@ -1166,7 +1202,7 @@ func (e *c04eEnv) scRestart() {
 		c.Count("e:restart:replay-" + cls + ":" + v)
 		if v == "accept" {
 			n := e.execs(r, p.rcpt, p.amount)
-			c.Fail("c04/replayed/after-restart", fmt.Sprintf("tx (exp %d, boxed=%v) executed in stable block time %d; node restarted on stable block time %d (%d s later); a block stamped %d with the tx again is accepted: credited %d x %s", exp, boxed, t1, s.Time(), s.Time()-t1, tr, n, p.amount),
+			e.g.fail("c04/replayed/after-restart", fmt.Sprintf("tx (exp %d, boxed=%v) executed in stable block time %d; node restarted on stable block time %d (%d s later); a block stamped %d with the tx again is accepted: credited %d x %s", exp, boxed, t1, s.Time(), s.Time()-t1, tr, n, p.amount),
 				e.witness(map[string]interface{}{"t1": t1, "exp": exp, "stableTime": s.Time(), "tr": tr, "execs": n, "boxed": boxed}))
 		}
 	}
@@ -1176,7 +1212,7 @@ func (e *c04eEnv) scRestart() {
 		v := e.insert(r2)
 		c.Count("e:restart:lost-tx-again:" + v)
 		if v != "accept" {
-			c.Fail("c04/fork-tx-refused", fmt.Sprintf("after restart: tx executed only in an unstable block that did not survive the restart is refused on the stable block (time %d)", s.Time()),
+			e.g.fail("c04/fork-tx-refused", fmt.Sprintf("after restart: tx executed only in an unstable block that did not survive the restart is refused on the stable block (time %d)", s.Time()),
 				e.witness(map[string]interface{}{"stableTime": s.Time(), "what": "after-restart"}))
 		} else if k := e.execs(r2, q.rcpt, q.amount); k != 1 {
 			c.Count(fmt.Sprintf("e:restart:lost-tx-execs-%d", k))
@@ -1217,7 +1253,7 @@ func c04eMiner(g *c04eG, rep int) {
 		tB1 := tf + 10 + uint32(rnd.Intn(10))
 		exp := uint64(tA1+c04eLife) - uint64(rnd.Intn(30)) // still alive at the real `now` (about tf+1500..1600)
 		p := e.pay(exp)
-		shape := []string{"standalone-on-side", "boxed-on-side", "boxed-on-main"}[rnd.Intn(3)]
+		shape := []string{"standalone-on-side", "boxed-on-side", "boxed-on-main"}[rep%3]
 		boxExp := uint64(tB1+c04eLife) - 50 - uint64(rnd.Intn(30))
 		if boxExp > exp {
 			boxExp = exp
@@ -1236,7 +1272,7 @@ func c04eMiner(g *c04eG, rep int) {
 		b1, _ := e.build(f, tB1, onB)
 		if e.insert(b1) != "accept" {
 			c.Count("e:miner:" + shape + ":side-block-refused")
-			c.Fail("c04/fork-tx-refused", "side-branch block B1 (child of the fork point) with a tx that is only on branch A is refused", e.witness(map[string]interface{}{"shape": shape}))
+			e.g.fail("c04/fork-tx-refused", "side-branch block B1 (child of the fork point) with a tx that is only on branch A is refused", e.witness(map[string]interface{}{"shape": shape}))
 			return
 		}
 		both(b1)
@@ -1278,8 +1314,266 @@ func c04eMiner(g *c04eG, rep int) {
 			return "accept"
 		})
 		c.Count(fmt.Sprintf("e:miner:%s:mined-replay-execs-%d:peer-%s", shape, k, peer))
-		c.Fail("c04/miner-includes-guarded-tx", fmt.Sprintf("%s: tx %s is in A1 (time %d) of the node's current branch G-A1-A2; side-branch block B1 (time %d) carrying it too was inserted, saveNewBlock pooled it; the real miner (MineBlock on head A2, stamp %d) packs it again into its own block height %d: recipient credited %d x %s at the new head; a second honest node with the same blocks answers %s to that block",
+		e.g.fail("c04/miner-includes-guarded-tx", fmt.Sprintf("%s: tx %s is in A1 (time %d) of the node's current branch G-A1-A2; side-branch block B1 (time %d) carrying it too was inserted, saveNewBlock pooled it; the real miner (MineBlock on head A2, stamp %d) packs it again into its own block height %d: recipient credited %d x %s at the new head; a second honest node with the same blocks answers %s to that block",
 			shape, p.tx.Hash().Hex()[:10], tA1, tB1, m.Time(), m.Height(), k, p.amount, peer),
 			e.witness(map[string]interface{}{"shape": shape, "tA1": tA1, "tA2": tA2, "tB1": tB1, "exp": exp, "minedAt": m.Time(), "execs": k, "peer": peer, "rep": rep}))
 	})
+}
+
+// ---- random histories: the engine's verdict against an ancestor walk done by the harness -------------------
+
+type c04eRB struct {
+	b      *types.Block
+	parent *c04eRB
+	hashes map[common.Hash]bool // hashes of the txs and box sub-txs of the block
+}
+
+func c04eHashes(b *types.Block) map[common.Hash]bool {
+	m := map[common.Hash]bool{}
+	for _, tx := range b.Txs {
+		m[tx.Hash()] = true
+		for _, s := range c04eSubs(tx) {
+			m[s.Hash()] = true
+		}
+	}
+	return m
+}
+
+func (x *c04eRB) descendsFrom(a *c04eRB) bool {
+	for y := x; y != nil; y = y.parent {
+		if y == a {
+			return true
+		}
+	}
+	return false
+}
+
+func (e *c04eEnv) scRandom(steps int) {
+	c, rnd := e.g.c, e.g.c.Rnd
+	root := &c04eRB{b: e.base()}
+	root.hashes = c04eHashes(root.b)
+	nodes := map[common.Hash]*c04eRB{root.b.Hash(): root}
+	live := []*c04eRB{root}
+	stable := root
+	var items []*types.Transaction // earlier standalone txs and boxes (pristine)
+	pays := map[common.Hash]c04ePay{}
+	relive := func(st *c04eRB) {
+		stable = st
+		var nl []*c04eRB
+		for _, x := range live {
+			if x.descendsFrom(st) {
+				nl = append(nl, x)
+			}
+		}
+		live = nl
+	}
+	for step := 0; step < steps; step++ {
+		switch op := rnd.Intn(20); {
+		case op < 3 && len(live) > 1:
+			x := live[rnd.Intn(len(live))]
+			if rnd.Intn(2) == 0 {
+				x = live[len(live)-1-rnd.Intn(min(3, len(live)))]
+			}
+			if x == stable {
+				continue
+			}
+			if e.stabilise(x.b) {
+				if e.n.BC.StableBlock().Hash() != x.b.Hash() {
+					panic("stable block is not the confirmed block")
+				}
+				relive(x)
+				c.Count("e:random:stabilise")
+			}
+			continue
+		case op == 3:
+			e.reopen()
+			st := nodes[e.n.BC.StableBlock().Hash()]
+			if st == nil || st != stable {
+				panic("restart: unexpected stable block")
+			}
+			if e.n.BC.CurrentBlock().Hash() == st.b.Hash() {
+				live = []*c04eRB{st}
+				c.Count("e:random:restart")
+			} else {
+				c.Count("e:random:restart-kept-unstable")
+			}
+			continue
+		}
+		// a new block on a live parent (mostly a recent one)
+		par := live[rnd.Intn(len(live))]
+		if rnd.Intn(3) != 0 {
+			par = live[len(live)-1-rnd.Intn(min(3, len(live)))]
+		}
+		t := par.b.Time() + uint32(rnd.Intn(40))
+		switch rnd.Intn(40) {
+		case 0, 1:
+			t += uint32(rnd.Intn(700))
+		case 2:
+			t += 1700 + uint32(rnd.Intn(200))
+		}
+		T := uint64(t)
+		// an earlier item: mostly one that is still alive at t
+		earlier := func() *types.Transaction {
+			var alive []*types.Transaction
+			for i := len(items) - 1; i >= 0 && len(alive) < 12; i-- {
+				if x := items[i]; x.Expiration() >= T && x.Expiration() <= T+uint64(c04eLife) {
+					alive = append(alive, x)
+				}
+			}
+			if len(alive) > 0 && rnd.Intn(6) != 0 {
+				return alive[rnd.Intn(len(alive))]
+			}
+			return items[len(items)-1-rnd.Intn(min(15, len(items)))]
+		}
+		freshExp := func() uint64 {
+			switch rnd.Intn(6) {
+			case 0:
+				return T
+			case 1:
+				return T + uint64(c04eLife)
+			}
+			return T + uint64(rnd.Intn(int(c04eLife)+1))
+		}
+		var txs []*types.Transaction
+		seen := map[common.Hash]bool{}
+		add := func(tx *types.Transaction) bool {
+			hs := []common.Hash{tx.Hash()}
+			for _, s := range c04eSubs(tx) {
+				hs = append(hs, s.Hash())
+			}
+			for i, h := range hs {
+				if seen[h] {
+					return false
+				}
+				for j := 0; j < i; j++ {
+					if hs[j] == h {
+						return false
+					}
+				}
+			}
+			for _, h := range hs {
+				seen[h] = true
+			}
+			txs = append(txs, tx)
+			return true
+		}
+		nItems := rnd.Intn(4)
+		var fresh []*types.Transaction
+		for i := 0; i < nItems; i++ {
+			switch k := rnd.Intn(10); {
+			case k < 4 || len(items) == 0: // fresh payment
+				p := e.pay(freshExp())
+				pays[p.tx.Hash()] = p
+				if add(p.tx) {
+					fresh = append(fresh, p.tx)
+				}
+			case k < 7: // an earlier item again, as it was
+				add(earlier())
+			default: // a new box around a fresh or an earlier payment
+				var sub *types.Transaction
+				if rnd.Intn(2) == 0 {
+					p := e.pay(freshExp())
+					pays[p.tx.Hash()] = p
+					sub = p.tx
+				} else {
+					sub = earlier()
+					if sub.Type() == params.BoxTx {
+						sub = c04eSubs(sub)[0]
+					}
+				}
+				if sub.Expiration() < T {
+					// a box may not outlive its sub-tx: such a box is refused for a reason outside the model; offer the sub-tx alone
+					add(sub)
+					continue
+				}
+				hi := sub.Expiration()
+				if hi > T+uint64(c04eLife) {
+					hi = T + uint64(c04eLife)
+				}
+				bx := e.box(e.otherUser(pays[sub.Hash()].from), T+uint64(rnd.Intn(int(hi-T)+1)), sub)
+				if add(bx) {
+					fresh = append(fresh, bx)
+				}
+			}
+		}
+		b, _ := e.build(par.b, t, txs...)
+		if _, dup := e.ids[b.Hash()]; dup {
+			continue
+		}
+		hs := c04eHashes(b)
+		// reference verdict
+		onPath := false
+		for a := par; a != nil && !onPath; a = a.parent {
+			for h := range hs {
+				if a.hashes[h] {
+					onPath = true
+					break
+				}
+			}
+		}
+		outside := false
+		for _, tx := range b.Txs {
+			for _, x := range append(types.Transactions{tx}, c04eSubs(tx)...) {
+				if x.Expiration() < T || x.Expiration() > T+uint64(c04eLife) {
+					outside = true
+				}
+			}
+		}
+		v := e.insert(b)
+		cls := "fresh"
+		if onPath && outside {
+			cls = "replay+outside"
+		} else if onPath {
+			cls = "replay"
+		} else if outside {
+			cls = "outside"
+		} else if len(b.Txs) == 0 {
+			cls = "empty"
+		} else {
+			for h := range hs {
+				for _, x := range nodes {
+					if x.hashes[h] {
+						cls = "tx-of-another-branch"
+					}
+				}
+			}
+		}
+		c.Count("e:random:" + cls + ":" + v)
+		want := "accept"
+		if onPath || outside {
+			want = "reject"
+		}
+		if v != want && v != "panic" {
+			sig := "c04/valid-tx-refused/random-history"
+			if v == "accept" {
+				sig = "c04/replayed/across-blocks/random-history"
+				if !onPath {
+					sig = "c04/executed-outside-window"
+				}
+			}
+			e.g.fail(sig, fmt.Sprintf("random history step %d: block height %d time %d on parent height %d (%d txs; tx on ancestor path=%v, tx outside its window=%v) gets %s", step, b.Height(), t, par.b.Height(), len(b.Txs), onPath, outside, v),
+				e.witness(map[string]interface{}{"step": step, "blockId": e.id(b.Hash()), "onPath": onPath, "outside": outside}))
+		}
+		if v != "accept" {
+			continue
+		}
+		x := &c04eRB{b: b, parent: par, hashes: hs}
+		nodes[b.Hash()] = x
+		live = append(live, x)
+		items = append(items, fresh...)
+		// direct oracle: nothing in the block has been credited more than once along this branch
+		for h := range hs {
+			if p, ok := pays[h]; ok {
+				if k := e.execs(b, p.rcpt, p.amount); k != 1 {
+					c.Count(fmt.Sprintf("e:random:execs-%d", k))
+					if k > 1 {
+						e.g.fail("c04/replayed/across-blocks/random-history", fmt.Sprintf("random history step %d: tx %s credited %d x %s in the view of block height %d", step, h.Hex()[:10], k, p.amount, b.Height()),
+							e.witness(map[string]interface{}{"step": step, "blockId": e.id(b.Hash()), "execs": k}))
+					}
+				} else {
+					c.Count("e:random:execs-1")
+				}
+			}
+		}
+	}
 }
